@@ -17,6 +17,7 @@ import (
 	"path/filepath"
 	"sort"
 	"strings"
+	"sync/atomic"
 	"time"
 
 	"github.com/sergi/go-diff/diffmatchpatch"
@@ -84,6 +85,33 @@ type v2T struct {
 	nIn     int
 	rng     *rand.Rand
 	tier    string
+	held    []v2Held // results handed out earlier: they are the caller's now
+}
+
+type v2Held struct{ got, want []byte }
+
+// normalize calls the real Normalize on a private copy of src and emits its event.  The result belongs to the caller: it is
+// kept (the very slice, next to a copy of its content), and every later Normalize event says whether all results handed out so
+// far still read as they did when they were returned.
+func (t *v2T) normalize(c *v2C, src []byte) []byte {
+	cp := v2Spare(src)
+	d0, w0 := len(c.c.docs), len(c.c.dict.words)
+	norm := c.c.Normalize(cp)
+	held := true
+	for _, h := range t.held {
+		if !bytes.Equal(h.got, h.want) {
+			held = false
+		}
+	}
+	if !held {
+		t.held = nil
+	}
+	if len(t.held) >= 48 {
+		t.held = t.held[1:]
+	}
+	t.held = append(t.held, v2Held{norm, append([]byte(nil), norm...)})
+	t.emit(map[string]interface{}{"ev": "norm", "c": c.id, "unchanged": v2Intact(cp, src), "held": held, "docs": []int{d0, len(c.c.docs)}, "dict": []int{w0, len(c.c.dict.words)}})
+	return norm
 }
 
 func newRand(seed int64) *rand.Rand { return rand.New(rand.NewSource(seed)) }
@@ -371,13 +399,21 @@ func (t *v2T) scoreEvent(c *v2C, in string, wdoc *indexedDocument, m map[string]
 // matchQuiet / emitMatch: the call and the emission of its event separated (concurrent callers emit under a
 // mutex of the driver, after the call returned).
 func (t *v2T) matchQuiet(c *v2C, data []byte, api string) Results {
-	cp := append([]byte(nil), data...)
+	cp := v2Spare(data) // spare capacity behind the input, filled with a sentinel: it is the caller's as well
+	var r Results
 	if api == "MatchFrom" {
-		r, _ := c.c.MatchFrom(bytes.NewReader(cp))
-		return r
+		r, _ = c.c.MatchFrom(bytes.NewReader(cp))
+	} else {
+		r = c.c.Match(cp)
 	}
-	return c.c.Match(cp)
+	if !v2Intact(cp, data) {
+		v2Spoiled.Store(fmt.Sprintf("%s changed the caller's bytes (input of %d bytes, or the spare capacity behind it)", api, len(data)))
+	}
+	return r
 }
+
+// v2Spoiled: set (by any goroutine) when a call wrote to memory of its caller; reported by the driver at the end.
+var v2Spoiled atomic.Value
 
 func (t *v2T) emitMatch(c *v2C, data []byte, r Results, memo, api string) {
 	vals := []float64{c.thr, 1.0}
@@ -486,6 +522,11 @@ func (t *v2T) oovWord(c *v2C) string {
 func (t *v2T) oovBlock(c *v2C, maxLines int) []byte {
 	var sb strings.Builder
 	for n := 1 + t.rng.Intn(maxLines); n > 0; n-- {
+		// every fifth line starts with a list marker: as the first word of a line it gives no token (the block stays out of
+		// vocabulary), the same spelling inside a line of the text next to the block is a word (a version number, "a.")
+		if t.rng.Intn(5) == 0 {
+			sb.WriteString([]string{"2.", "a.", "1.2:", "iv.", "3.1.", "3.", "b:", "2.0.", "1.", "2.1."}[t.rng.Intn(10)] + " ")
+		}
 		for k, w := 0, 1+t.rng.Intn(8); k < w; k++ {
 			if k > 0 {
 				sb.WriteByte(' ')
